@@ -1,11 +1,120 @@
-(* C04 - placeholder while the error-bound proofs are being built (replaced below) *)
+(* C04 - Floating-point arithmetic stays within a fixed error of the exact result.
+   Only statements, `exact`/short assembly, Print Assumptions and non-vacuity examples here.
+
+   value_scaled v = (exact mathematical value of v) * 2^184 for an Integer, Single or Double v (model/MBF.v).
+   v_add / v_sub / v_mul / v_div model values.add / sub / mul / div (model/MBFArith.v): promotion of both
+   operands to the widest type (`widest x y`: tag 4 single, 8 double; integers count as single; promotion is
+   exact, C06) and the FloatErrorHandler in its two modes (first argument true: the BASIC error is raised;
+   false: the message is printed and the operation yields the payload), around the REGENERATED Float.iadd /
+   isub / imul / idiv (_add_den, _div_den, _bring_to_range, _normalise, _check_limits; gen/Gen_mbf.v).
+
+   val_post t strict w den N D rh rs  (model/MBFArith.v) is the statement of the property for one operation
+   whose exact result is the rational N / D (on the value_scaled scale), with rh / rs the results in the two
+   handler modes:
+     * Overflow (error 6) is raised only if |N/D| > MAX(t) = max_scaled t, the soft result is then the largest
+       number of type t with the sign of the exact result, and it IS raised whenever |N/D| >= 2^127
+       (between MAX and 2^127 = MAX + 1 ulp the result may instead round to MAX itself: READING of "a result
+       whose magnitude exceeds the largest representable number" as the rounded result);
+     * otherwise both modes return the same float r of type t;
+     * r is a zero only if |N/D| < MIN = 2^-128 (min_scaled): a non-zero result is replaced by zero only below
+       the smallest positive number (an exact zero trivially satisfies this);
+     * for non-zero r:  den * |r - N/D|  <  (strict)  /  <=  w * ulp(r),  ulp(r) = ulp_scaled r the unit in the
+       last binary place of r.
+   The multiplication clauses hold for Double only with fixes/D5.patch (per-type underflow exit in imul). *)
 From Coq Require Import ZArith List Bool Lia.
 From PCB Require Import lib.Result lib.PyInt lib.MBFPrims gen.Gen_mbf model.MBF model.MBFArith
-  proofs.MBF_base proofs.MBF_values proofs.MBFArith_norm proofs.MBFArith_mul proofs.MBFArith_add
-  proofs.MBFArith_div proofs.MBFArith_values.
+  proofs.MBF_base proofs.MBF_compare proofs.MBF_values proofs.MBFArith_norm proofs.MBFArith_mul proofs.MBFArith_add
+  proofs.MBFArith_div proofs.MBFArith_addbound proofs.MBFArith_values.
 Import ListNotations.
 Open Scope Z_scope.
-Theorem C04_mul : forall x y, value_ok x -> value_ok y -> is_num x = true -> is_num y = true ->
+
+(* the regenerated class constants (incl. _shift, the per-type underflow threshold of imul) *)
+Theorem C04_formats : fmt_ok2 Single_consts /\ fmt_ok2 Double_consts.
+Proof. exact (conj Single_ok2 Double_ok2). Qed.
+Print Assumptions C04_formats.
+
+(* + and - : at most 2 units in the last place of the result *)
+Theorem C04_add_err : forall x y, value_ok x -> value_ok y -> is_num x = true -> is_num y = true ->
+  val_post (widest x y) false 2 1 (value_scaled x + value_scaled y) 1 (v_add true x y) (v_add false x y).
+Proof. exact v_add_post. Qed.
+Print Assumptions C04_add_err.
+
+Theorem C04_sub_err : forall x y, value_ok x -> value_ok y -> is_num x = true -> is_num y = true ->
+  val_post (widest x y) false 2 1 (value_scaled x - value_scaled y) 1 (v_sub true x y) (v_sub false x y).
+Proof. exact v_sub_post. Qed.
+Print Assumptions C04_sub_err.
+
+(* * and / : less than 1 unit in the last place of the result.  exact product = vx * vy / 2^184 on the scale
+   of value_scaled; exact quotient = vx * 2^184 / vy, written with a positive denominator *)
+Theorem C04_mul_err : forall x y, value_ok x -> value_ok y -> is_num x = true -> is_num y = true ->
   val_post (widest x y) true 1 1 (value_scaled x * value_scaled y) (2 ^ 184) (v_mul true x y) (v_mul false x y).
 Proof. exact v_mul_post. Qed.
-Print Assumptions C04_mul.
+Print Assumptions C04_mul_err.
+
+Theorem C04_div_err : forall x y, value_ok x -> value_ok y -> is_num x = true -> is_num y = true ->
+  value_scaled y <> 0 ->
+  val_post (widest x y) true 1 1 (value_scaled x * 2 ^ 184 * Z.sgn (value_scaled y)) (Z.abs (value_scaled y))
+           (v_div true x y) (v_div false x y).
+Proof. exact v_div_post. Qed.
+Print Assumptions C04_div_err.
+
+(* division by zero (any zero encoding of any type): Division by zero (error 11) is raised; soft-handled it
+   yields the largest number of the result type with the sign of the dividend *)
+Theorem C04_divzero : forall x y, value_ok x -> value_ok y -> is_num x = true -> is_num y = true ->
+  value_scaled y = 0 ->
+  let t := widest x y in
+  v_div true x y = Err err_div_zero /\
+  exists neg, v_div false x y = Ok (mkf t (f_max (cls t) neg)) /\
+    (value_scaled x < 0 -> neg = true) /\ (0 < value_scaled x -> neg = false).
+Proof. exact v_div_by_zero. Qed.
+Print Assumptions C04_divzero.
+
+(* the payload f_max is the signed maximum: value +-MAX, of the result type *)
+Theorem C04_max_value : forall t neg, t = 4 \/ t = 8 ->
+  value_scaled (mkf t (f_max (cls t) neg)) = (if neg then -1 else 1) * max_scaled t /\
+  v_tag (mkf t (f_max (cls t) neg)) = t /\ value_ok (mkf t (f_max (cls t) neg)).
+Proof. exact max_value. Qed.
+Print Assumptions C04_max_value.
+
+(* the clause "a non-zero result is replaced by zero only when its magnitude is below the smallest positive
+   number", spelled out for multiplication (the clause that defect D5 violated for doubles) *)
+Theorem C04_mul_underflow_only_below_min : forall x y r, value_ok x -> value_ok y -> is_num x = true -> is_num y = true ->
+  v_mul true x y = Ok r -> is_zero_value r = true ->
+  Z.abs (value_scaled x * value_scaled y) < min_scaled * 2 ^ 184.
+Proof.
+  intros x y r Hx Hy Nx Ny E Hz. destruct (v_mul_post x y Hx Hy Nx Ny) as [H _].
+  rewrite E in H. destruct H as (_ & _ & _ & H). rewrite Hz in H. exact H.
+Qed.
+Print Assumptions C04_mul_underflow_only_below_min.
+
+(* the same statements at the byte level, for the regenerated in-place operations on two buffers of one class
+   (sval_post: exact result N / Dn on the scale f_sval = value * 2^bias) *)
+Theorem C04_bytes : forall C a b, fmt_ok2 C -> mbits C <= 56 -> buf_ok C a -> buf_ok C b ->
+  sval_post C false 2 1 (f_sval C a + f_sval C b) 1 (mbf_iadd C a b) /\
+  sval_post C false 2 1 (f_sval C a - f_sval C b) 1 (mbf_isub C a b) /\
+  sval_post C true 1 1 (f_sval C a * f_sval C b) (2 ^ c_bias C) (mbf_imul C a b) /\
+  (f_zero b = false ->
+   sval_post C true 1 1 (f_sval C a * 2 ^ c_bias C * Z.sgn (f_sval C b)) (f_mag C b) (mbf_idiv C a b)) /\
+  (f_zero b = true -> mbf_idiv C a b = Host 6).
+Proof.
+  intros C a b HC Hm Ha Hb. pose proof HC as [HC1 _].
+  split; [exact (proj1 (iadd_sval C a b HC1 Ha Hb))|]. split; [exact (proj1 (isub_sval C a b HC1 Ha Hb))|].
+  split; [apply imul_sval; assumption|]. split; [intros Hz; apply idiv_sval; assumption|].
+  intros Hz. apply idiv_by_zero. exact Hz.
+Qed.
+Print Assumptions C04_bytes.
+
+(* non-vacuity: 1D-31 * 1 = 1D-31 (the D5 witness, 0 before the fix); 2^-64 * 2^-65 underflows to 0 (below MIN);
+   MAX * 2 raises Overflow and soft-yields +MAX; -1 / 0 raises Division by zero and soft-yields -MAX;
+   1 / 3 and 0.1 + 0.2 are inexact non-zero results; MAX + MAX overflows *)
+Example C04_nonvacuous :
+  v_mul true (VDbl [252; 67; 75; 44; 179; 206; 1; 26]) (VInt [1; 0]) = Ok (VDbl [252; 67; 75; 44; 179; 206; 1; 26]) /\
+  v_mul true (VDbl [0; 0; 0; 0; 0; 0; 0; 65]) (VDbl [0; 0; 0; 0; 0; 0; 0; 64]) = Ok (VDbl [0; 0; 0; 0; 0; 0; 0; 0]) /\
+  v_mul true (VSng [255; 255; 127; 255]) (VInt [2; 0]) = Err 6 /\
+  v_mul false (VSng [255; 255; 127; 255]) (VInt [2; 0]) = Ok (VSng [255; 255; 127; 255]) /\
+  v_div true (VInt [255; 255]) (VSng [7; 7; 7; 0]) = Err 11 /\
+  v_div false (VInt [255; 255]) (VSng [7; 7; 7; 0]) = Ok (VSng [255; 255; 255; 255]) /\
+  v_div true (VInt [1; 0]) (VInt [3; 0]) = Ok (VSng [171; 170; 42; 127]) /\
+  v_add true (VSng [205; 204; 76; 125]) (VSng [205; 204; 76; 126]) = Ok (VSng [154; 153; 25; 127]) /\
+  v_add true (VDbl [255; 255; 255; 255; 255; 255; 127; 255]) (VDbl [255; 255; 255; 255; 255; 255; 127; 255]) = Err 6.
+Proof. vm_compute. repeat split. Qed.
